@@ -116,23 +116,37 @@ def oracle_digest(layout):
 
 
 def check_writer(layout):
-    """Machinery self-check, independent of the parser under test: replaying the records into a
-    sparse memory gives exactly the bytes of the areas, each address written once."""
-    mem, z = {}, None
-    for r in layout.records:
-        if r[0] == "ela":
-            z = r[1]
-        elif r[0] == "data":
-            base = ((0 if z is None else z) << 16) + r[1]
-            for i, b in enumerate(r[2]):
+    """Machinery self-check, independent of the parser under test: reading the emitted text back
+    line by line (every checksum must close to 0 mod 256) into a sparse memory gives exactly the
+    bytes of the areas, each address written once, and the last record is the end-of-file record."""
+    mem, upper, last = {}, None, None
+    for line in hex_text(layout).splitlines():
+        if not line:
+            continue
+        if line[0] != ":":
+            raise ValueError("writer: line without ':'")
+        raw = bytes.fromhex(line[1:])
+        if sum(raw) & 0xFF or len(raw) != raw[0] + 5:
+            raise ValueError("writer: bad checksum or length")
+        n, addr, typ, payload = raw[0], (raw[1] << 8) | raw[2], raw[3], raw[4:-1]
+        last = typ
+        if typ == 4:
+            upper = (payload[0] << 8) | payload[1]
+        elif typ == 0:
+            base = ((upper or 0) << 16) + addr
+            if addr + n > ZONE:
+                raise ValueError("writer: data record over a 64 KiB boundary")
+            for i, b in enumerate(payload):
                 if base + i in mem:
                     raise ValueError("writer: address written twice")
                 mem[base + i] = b
     want = {}
     for (az, ao, d) in layout.areas:
         for i, b in enumerate(d):
+            if (az << 16) + ao + i in want:
+                raise ValueError("generator: areas overlap")
             want[(az << 16) + ao + i] = b
-    if mem != want:
+    if mem != want or last != 1:
         raise ValueError("writer: records do not write the image")
 
 
@@ -234,7 +248,7 @@ def random_layout(rng, small=False):
     else:
         flat = [r for recs in per_area for r in recs]
         rng.shuffle(flat)
-    implicit = (not small) and rng.random() < 0.04 and flat[0][0] == 0
+    implicit = rng.random() < 0.04 and flat[0][0] == 0
     records, wz = [], (0 if implicit else None)
     for (z, a, d) in flat:
         if z != wz:
@@ -607,7 +621,31 @@ class Session:
 
     PUB_NAMES = {1: "pubkey.txt", 2: os.path.join("keys", "onetime.pub")}
 
-    def run(self, imgs, pubn, relative=True, spaces=False):
+    def _run_child(self, argv):
+        """The same run in a fresh interpreter through the script's own `__main__` entry; the child
+        installs the same recorders and reports the generated scalars / opened paths through a side
+        file outside the working directory (removed at once)."""
+        import subprocess
+        import tempfile
+        import ecdsa
+        fd, rec = tempfile.mkstemp(prefix="c19child_", suffix=".json", dir=os.path.dirname(self.root))
+        os.close(fd)
+        script = os.path.join(env.MIDDLEWARE, "signonetime.py")
+        code = ("import sys; sys.path.insert(0, %r); from harness import appimage as a; a.child_main()"
+                % env.VERIF)
+        e = dict(os.environ, PYTHONDONTWRITEBYTECODE="1", PYTHONHASHSEED="0")
+        try:
+            p = subprocess.run([sys.executable, "-c", code, rec, script] + argv[1:], cwd=self.root, env=e,
+                               stdout=subprocess.PIPE, stderr=subprocess.PIPE, text=True, timeout=120)
+            with open(rec) as f:
+                data = json.load(f)
+        finally:
+            os.unlink(rec)
+        for hx in data["gens"]:
+            REG.record(ecdsa.SigningKey.from_string(bytes.fromhex(hx), curve=ecdsa.SECP256k1))
+        return p.returncode, data.get("exc"), p.stdout, p.stderr, data["opened"]
+
+    def run(self, imgs, pubn, relative=True, spaces=False, child=False):
         root = self.root
         pub_rel = self.PUB_NAMES[pubn]
 
@@ -618,17 +656,21 @@ class Session:
         import signonetime
         g0 = len(REG.log)
         REG.active = True
+        hins = []
         try:
-            with Patched(argv, root) as p:
-                code, exc = _call_main(signonetime)
+            if child:
+                code, exc, out, err, opened = self._run_child(argv)
+            else:
+                with Patched(argv, root) as p:
+                    code, exc = _call_main(signonetime)
+                out, err, opened = p.out.getvalue(), p.err.getvalue(), p.opened
+                hins = [bytes(x) for x in p.sha.inputs]
         finally:
             REG.active = False
         gens = REG.log[g0:]
         self.session_keys.update(gens)
-        out = p.out.getvalue()
-        err = p.err.getvalue()
         needles = REG.needles(self.session_keys)
-        opened = set(p.opened)
+        opened = set(opened)
         # every file below the working directory + everything opened for writing elsewhere
         paths = []
         for dp, _dn, fn in os.walk(root):
@@ -710,7 +752,7 @@ class Session:
         run = {"imgs": list(imgs), "pub": {"k": "pub", "n": pubn}, "gens": list(gens), "exit": code,
                "files": files, "outleak": leaks((out + "\n" + err).encode(), needles), "hashes": hashes}
         info = {"argv": argv, "stdout": out[-600:], "stderr": err[-300:], "exc": exc, "notes": notes,
-                "hins": [bytes(x) for x in p.sha.inputs]}
+                "hins": hins, "child": child}
         return run, info
 
 
@@ -723,6 +765,30 @@ def observe_parser(path):
                 for a in IntelHexParser(path).getAreas()]
     except Exception:
         return None
+
+
+def child_main():
+    """Entry of the child interpreter: argv = [-c, recfile, script, tool args...]."""
+    import runpy
+    rec, script = sys.argv[1], sys.argv[2]
+    install_boundary()
+    sys.argv = [script] + sys.argv[3:]
+    code, exc = 0, None
+    _audit["log"] = []
+    _audit["armed"] = True
+    try:
+        runpy.run_path(script, run_name="__main__")
+    except SystemExit as e:
+        code = e.code if isinstance(e.code, int) else (0 if e.code is None else 1)
+    except BaseException as e:      # noqa
+        code, exc = 70, type(e).__name__
+    finally:
+        _audit["armed"] = False
+    sys.stdout.flush()
+    with open(rec, "w") as f:
+        json.dump({"gens": [REG.keys[k].to_string().hex() for k in REG.log if k in REG.keys],
+                   "opened": list(_audit["log"]), "exc": exc}, f)
+    os._exit(code)
 
 
 def trace_of_layout(tid, layout, reports, hins, small, pareas=None):
